@@ -52,6 +52,37 @@ pub fn assemble_from_string(source: &str) -> Result<(Vec<Function>, Heap)> {
     assemble(source)
 }
 
+/// The disassembler lists functions in pre-order and `func @N` constants are relative to the
+/// enclosing function, so with the `.nested` counts the tree can be put back together:
+/// each function takes the next `count` subtrees as its nested functions. Iterative, so a
+/// long `.nested 1` chain cannot exhaust the native stack. Functions left over (counts that
+/// do not add up) are attached to the root, which is what happened to every function before.
+fn rebuild_hierarchy(functions: Vec<Function>, counts: &[Option<usize>]) -> Function {
+    let mut stack: Vec<(Function, usize)> = Vec::new();
+    for (func, count) in functions.into_iter().zip(counts.iter()) {
+        stack.push((func, count.unwrap_or(0)));
+        while stack.len() > 1 && stack[stack.len() - 1].1 == 0 {
+            let (done, _) = stack.pop().expect("len > 1");
+            let parent = stack.last_mut().expect("len >= 1");
+            if parent.1 > 0 {
+                parent.1 -= 1;
+                parent.0.nested_functions.push(done);
+            } else {
+                // the parent expected no more children: keep the function, under the root
+                stack[0].0.nested_functions.push(done);
+            }
+        }
+    }
+    while stack.len() > 1 {
+        let (done, _) = stack.pop().expect("len > 1");
+        stack.last_mut().expect("len >= 1").0.nested_functions.push(done);
+    }
+    stack
+        .pop()
+        .map(|(f, _)| f)
+        .unwrap_or_else(|| Function::new(None, 0))
+}
+
 /// Parser for .aasm files
 pub(super) struct AasmParser<'a> {
     pub(super) lexer: Lexer<'a>,
@@ -96,6 +127,8 @@ impl<'a> AasmParser<'a> {
 
     fn parse(&mut self) -> Result<(Vec<Function>, Heap)> {
         let mut functions = Vec::new();
+        // direct nested-function count of each function, when the text gives it (`.nested N`)
+        let mut nested_counts: Vec<Option<usize>> = Vec::new();
 
         self.skip_newlines()?;
 
@@ -117,8 +150,9 @@ impl<'a> AasmParser<'a> {
 
             if let Token::Directive(ref d) = self.current.clone() {
                 if d == "function" {
-                    let func = self.parse_function()?;
+                    let (func, nested) = self.parse_function()?;
                     functions.push(func);
+                    nested_counts.push(nested);
                 } else {
                     return Err(AssemblerError::ParseError {
                         line: self.lexer.current_line(),
@@ -140,11 +174,15 @@ impl<'a> AasmParser<'a> {
             }
         }
 
+        if nested_counts.iter().any(|n| n.is_some()) {
+            functions = vec![rebuild_hierarchy(functions, &nested_counts)];
+        }
+
         let heap = std::mem::take(&mut self.heap);
         Ok((functions, heap))
     }
 
-    fn parse_function(&mut self) -> Result<Function> {
+    fn parse_function(&mut self) -> Result<(Function, Option<usize>)> {
         // .function N
         self.expect(Token::Directive("function".to_string()))?;
         let _func_idx = match self.advance()? {
@@ -161,6 +199,7 @@ impl<'a> AasmParser<'a> {
         let mut name = None;
         let mut arity = 0u8;
         let mut num_registers = 0u8;
+        let mut nested = None;
         let mut constants = Vec::new();
         let mut bytecode = Vec::new();
         let mut global_names = Vec::new();
@@ -187,6 +226,12 @@ impl<'a> AasmParser<'a> {
                         self.advance()?;
                         if let Token::Int(n) = self.advance()? {
                             num_registers = n as u8;
+                        }
+                    }
+                    "nested" => {
+                        self.advance()?;
+                        if let Token::Int(n) = self.advance()? {
+                            nested = Some(n.clamp(0, u16::MAX as i64) as usize);
                         }
                     }
                     "globals" => {
@@ -260,7 +305,7 @@ impl<'a> AasmParser<'a> {
         func.upvalue_descriptors = upvalue_descriptors;
         func.compute_global_layout_hash();
 
-        Ok(func)
+        Ok((func, nested))
     }
 
     fn parse_constants(&mut self) -> Result<Vec<Value>> {
